@@ -497,7 +497,41 @@ def run_case(ctx: Ctx, case: Dict[str, Any]) -> None:
         run_file_fault(ctx, case["case"])
 
 
+def run_repo_suite_under_monitors(ctx: Ctx) -> None:
+    """Thorough tier, one shard: the repository's own tests with the monitors attached (pvm.pytest_plugin)."""
+    import subprocess
+    import sys
+    from pvm import env
+
+    out = tempfile.mkdtemp(prefix="pvm_suite_")
+    try:
+        res = os.path.join(out, "suite.json")
+        envv = dict(os.environ, PYTHONPATH=env.VERIF + os.pathsep + env.SRC, PVM_SUITE_OUT=res, MPLBACKEND="Agg")
+        p = subprocess.run([sys.executable, "-m", "pytest", "-q", "-p", "pvm.pytest_plugin", "-p", "no:cacheprovider",
+                            "--timeout=900"], cwd=env.REPO, env=envv, capture_output=True, text=True, timeout=1800)
+        ctx.count("repo-suite-under-monitors:pytest-exit-%d" % p.returncode)
+        if os.path.exists(res):
+            with open(res) as f:
+                data = json.load(f)
+            for prop, d in data.items():
+                for k, v in d.get("counters", {}).items():
+                    if k.startswith(("events:", "compose-", "quotient-", "merge-", "top-level")):
+                        ctx.count("repo-suite-under-monitors:%s:%s" % (prop, k), int(v))
+                for v in d.get("violations", []):
+                    ctx.count("repo-suite-under-monitors:%s:VIOLATION:%s" % (prop, v["mechanism"]))
+                    if prop == "C14":
+                        ctx.violation(v["mechanism"], "repository test %s under monitors: %s" % (v.get("test"),
+                                                                                                   v["what"]),
+                                      {"repo_test": v.get("test")})
+    except Exception as e:  # noqa: BLE001
+        ctx.count("repo-suite-under-monitors:error:%s" % type(e).__name__)
+    finally:
+        shutil.rmtree(out, ignore_errors=True)
+
+
 def run(ctx: Ctx) -> None:
+    if not ctx.quick() and ctx.shard == 0:
+        run_repo_suite_under_monitors(ctx)
     # E: every single-field deletion / kind change of a valid entry in both representations
     for idx, fc in enumerate(fault_cases()):
         if ctx.mine(idx):
